@@ -1468,3 +1468,192 @@ func c12R13(c *Ctx, r *Report) {
 	r.Check(len(hits) == 0, rule, fn.Name(), "no cast of structured types is decided before "+guard.Obj.Name()+" ran", c.pos(pos),
 		"a return of checkCastExpr after the compatibility computation is reachable without the container guard: the map / array / optional branch accepts a cast whose elements are another module's structs with private fields")
 }
+
+// ---- C16.R13: a converted value is not described by the type it had before --------------------------------------
+
+func init() {
+	lateInits = append(lateInits, func() {
+		props["C16"].Quick = append(props["C16"].Quick, c16R13)
+		props["C01"].Quick = append(props["C01"].Quick, c16R13)
+		props["C16"].Explanation += " (R13) in mir/gen, once a value variable has been reassigned from castValue(v, T, U, …), a later call never receives v together with the old type variable T unless T was reassigned in between: the operation is chosen for the type the value now has (`i128 ** i256` ran the 128-bit power on 256-bit operands)."
+	})
+}
+
+func c16R13(c *Ctx, r *Report) {
+	const rule = "C16.R13"
+	r.Describe(rule, "mir/gen: for every assignment `v = b.castValue(v, T, U, …)` with local variables v and T, no later call in the function has both v and T among its arguments unless T is assigned between the conversion and the call")
+	cast := c.LookupFn(pkgMIRGen, "(*functionBuilder).castValue")
+	if !r.Anchor(rule, cast != nil, "mir/gen.castValue") {
+		return
+	}
+	n := 0
+	for _, fn := range c.AllFns(pkgMIRGen) {
+		if fn.Decl.Body == nil {
+			continue
+		}
+		info := fn.Info()
+		ast.Inspect(fn.Decl.Body, func(x ast.Node) bool {
+			as, ok := x.(*ast.AssignStmt)
+			if !ok || len(as.Lhs) != 1 || len(as.Rhs) != 1 || as.Tok != token.ASSIGN {
+				return true
+			}
+			cl, ok := ast.Unparen(as.Rhs[0]).(*ast.CallExpr)
+			if !ok || !isCallTo(info, cl, cast.Obj) || len(cl.Args) < 3 {
+				return true
+			}
+			v := objOf(info, as.Lhs[0])
+			tID, isID := ast.Unparen(cl.Args[1]).(*ast.Ident)
+			if v == nil || !isID || objOf(info, cl.Args[0]) != v {
+				return true
+			}
+			t := info.Uses[tID]
+			if _, isVar := t.(*types.Var); !isVar || t == objOf(info, cl.Args[2]) {
+				return true
+			}
+			n++
+			// the block the conversion stands in and everything after it in the function
+			bad := ""
+			var badPos token.Pos = as.Pos()
+			for _, later := range callsIn(fn.Decl.Body, true) {
+				if later.Pos() <= as.End() {
+					continue
+				}
+				hasV, hasT := false, false
+				for _, a := range later.Args {
+					if objOf(info, a) == v {
+						hasV = true
+					}
+					if objOf(info, a) == t {
+						hasT = true
+					}
+				}
+				if !hasV || !hasT {
+					continue
+				}
+				// T (or v) reassigned in between?
+				redefined := false
+				ast.Inspect(fn.Decl.Body, func(y ast.Node) bool {
+					if a2, ok := y.(*ast.AssignStmt); ok && a2.Pos() >= as.End() && a2.End() <= later.Pos() {
+						for _, l := range a2.Lhs {
+							if o := objOf(info, l); o == t {
+								redefined = true
+							}
+						}
+					}
+					return true
+				})
+				// the later call stands in a branch the conversion cannot reach (sibling case clause)? keep it
+				// simple: only calls inside the statement list that follows the conversion's enclosing block count
+				if !redefined && sameOrEnclosingBlock(fn.Decl.Body, as, later) {
+					bad, badPos = exprStr(later.Fun), later.Pos()
+					break
+				}
+			}
+			r.Check(bad == "", rule, fn.Name(), "value "+exprStr(as.Lhs[0])+" converted from "+tID.Name, c.pos(badPos),
+				bad+" receives the converted value together with the type it had before the conversion: the operation is selected for the old type — `let a: i128 = -3; let w: i256 = 4; io::Println(a ** w);` called the 128-bit power on two 256-bit operands and printed 1701411834604692317316873037158841057361 for 81")
+			return true
+		})
+	}
+	r.Floor(rule, n, 3, "in-place conversions with a type variable")
+}
+
+// sameOrEnclosingBlock: `later` is positioned after `stmt` inside the block that directly contains stmt, or inside a
+// block that encloses that block (so control can flow from stmt to later without leaving a sibling branch).
+func sameOrEnclosingBlock(root ast.Node, stmt ast.Stmt, later ast.Node) bool {
+	ok := false
+	walkWithStack(root, func(x ast.Node, stack []ast.Node) bool {
+		if x != ast.Node(stmt) {
+			return true
+		}
+		for i := len(stack) - 1; i >= 0; i-- {
+			var list []ast.Stmt
+			switch b := stack[i].(type) {
+			case *ast.BlockStmt:
+				list = b.List
+			case *ast.CaseClause:
+				list = b.Body
+			default:
+				continue
+			}
+			var inner ast.Node = stmt
+			if i+1 < len(stack) {
+				inner = stack[i+1]
+			}
+			after := false
+			for _, st := range list {
+				if containsNode(st, inner) {
+					after = true
+					continue
+				}
+				if after && containsNode(st, later) {
+					ok = true
+				}
+			}
+			if _, isCase := stack[i].(*ast.CaseClause); isCase {
+				break // do not leave the case clause
+			}
+		}
+		return false
+	})
+	return ok
+}
+
+// ---- C17.R15: the current value of a compound assignment survives the right-hand side ---------------------------
+
+func init() {
+	lateInits = append(lateInits, func() {
+		props["C17"].Quick = append(props["C17"].Quick, c17R15)
+		props["C01"].Quick = append(props["C01"].Quick, c17R15)
+		props["C17"].Explanation += " (R15) the helper all compound assignments share copies the current value out of its place (snapshotValue: by-reference types are denoted by the address of the place) before it lowers the right-hand side, which may append to the array the element lives in."
+	})
+}
+
+func c17R15(c *Ctx, r *Report) {
+	const rule = "C17.R15"
+	r.Describe(rule, "mir/gen.lowerCompoundValue: every path to the lowering of the right-hand side has passed `cur = b.snapshotValue(cur, …)`; snapshotValue copies into a fresh alloca when needsByRefType holds")
+	fn := c.LookupFn(pkgMIRGen, "(*functionBuilder).lowerCompoundValue")
+	snap := c.LookupFn(pkgMIRGen, "(*functionBuilder).snapshotValue")
+	lower := c.LookupFn(pkgMIRGen, "(*functionBuilder).lowerExpr")
+	if !r.Anchor(rule, fn != nil && snap != nil && lower != nil && fn.Decl.Body != nil, "mir/gen lowerCompoundValue / snapshotValue / lowerExpr") {
+		return
+	}
+	info := fn.Info()
+	cur, rhs := fn.ParamNamed("cur"), fn.ParamNamed("rhs")
+	if !r.Anchor(rule, cur != nil && rhs != nil, "lowerCompoundValue(…, cur, rhs, …)") {
+		return
+	}
+	hits := mustFlow(c.CFG(fn), FlowSpec{
+		Gate: func(x ast.Node) bool {
+			as, ok := x.(*ast.AssignStmt)
+			if !ok || len(as.Lhs) != 1 || len(as.Rhs) != 1 || objOf(info, as.Lhs[0]) != cur {
+				return false
+			}
+			cl, ok := ast.Unparen(as.Rhs[0]).(*ast.CallExpr)
+			return ok && isCallTo(info, cl, snap.Obj) && len(cl.Args) >= 1 && objOf(info, cl.Args[0]) == cur
+		},
+		Target: func(x ast.Node) bool {
+			cl := nodeCalls(info, x, lower.Obj)
+			return cl != nil && len(cl.Args) == 1 && objOf(info, cl.Args[0]) == rhs
+		},
+	})
+	pos := fn.Decl.Pos()
+	if len(hits) > 0 {
+		pos = hits[0].Pos
+	}
+	r.Check(len(hits) == 0, rule, fn.Name(), "cur is snapshotted before the right-hand side is lowered", c.pos(pos),
+		"the right-hand side of `lhs op= rhs` runs while the current value of a by-reference type is still the address of the place: `a[0] += g()` on a []i128 whose g appends to a reads the element from the freed storage (printed 11248722799626164320081042218315662155 for 8), and `x += h()` with an i128 x that h assigns adds to the new x")
+	// snapshotValue copies for by-reference types
+	sinfo := snap.Info()
+	hasAlloca, hasTest := false, false
+	for _, cl := range callsIn(snap.Decl.Body, false) {
+		if f := callee(sinfo, cl); f != nil {
+			if f.Name() == "emitAlloca" {
+				hasAlloca = true
+			}
+			if f.Name() == "needsByRefType" {
+				hasTest = true
+			}
+		}
+	}
+	r.Check(hasAlloca && hasTest, rule, snap.Name(), "copies a by-reference value into a fresh slot", c.pos(snap.Decl.Pos()), "snapshotValue no longer copies by-reference values out of their place")
+}
